@@ -134,11 +134,19 @@ CANARIES = [
     ('leaf-size-forgets-value', 'C05', 'src/node.rs', '            Self::Kv(k, v) => k.size() + v.size(),', '            Self::Kv(k, _v) => k.size(),'),
     ('new-node-wrong-id', 'C05', 'src/bucket.rs', '        let n = Node::with_data(node_id, data, self.pages.pagesize);', '        let n = Node::with_data(node_id + 1, data, self.pages.pagesize);'),
     ('with-data-keeps-a-page', 'C05', 'src/node.rs', '            page_id: 0,\n            num_pages: 0,\n            children: Vec::new(),\n            data,\n            deleted: false,\n            original_key,\n            pagesize,\n            spilled: false,\n            parent: None,\n        }\n    }\n\n    pub(crate) fn insert_child', '            page_id: 2,\n            num_pages: 1,\n            children: Vec::new(),\n            data,\n            deleted: false,\n            original_key,\n            pagesize,\n            spilled: false,\n            parent: None,\n        }\n    }\n\n    pub(crate) fn insert_child'),
+    ('spill-headers-not-restored', 'C05', 'src/bucket.rs', '            self.put_leaf(Leaf::Bucket(name, meta))?;\n        }\n\n        // The root page can be', '            let _ = (name, meta);\n        }\n\n        // The root page can be'),
+    ('spill-keeps-old-root', 'C05', 'src/bucket.rs', '        self.meta.root_page = page_id;\n\n        Ok(self.meta)', '        let _ = page_id;\n\n        Ok(self.meta)'),
+    ('spill-bumps-counter', 'C01', 'src/bucket.rs', '        self.meta.root_page = page_id;\n\n        Ok(self.meta)', '        self.meta.root_page = page_id;\n        self.meta.next_int += 1;\n\n        Ok(self.meta)'),
+    ('spill-skips-some-children', 'C05', 'src/bucket.rs', '            let bucket_meta = b.spill(tx_freelist)?;\n            // Store updated bucket metadata in a map since self is borrowed\n            bucket_metas.insert(key.clone(), bucket_meta);', '            if b.meta.next_int % 2 == 1 { continue; }\n            let bucket_meta = b.spill(tx_freelist)?;\n            bucket_metas.insert(key.clone(), bucket_meta);'),
 ]
 
 
 # Semantics-PRESERVING edits: the check must NOT answer exit 1 for any of them (exit 0 or exit 2 are both acceptable).
 EQUIVALENTS = [
+    # a child without changes answers with its committed header: storing it again or not is the same
+    ('eq-spill-skips-clean-children', 'C05', 'src/bucket.rs', '            let bucket_meta = b.spill(tx_freelist)?;\n            // Store updated bucket metadata in a map since self is borrowed\n            bucket_metas.insert(key.clone(), bucket_meta);', '            if !b.dirty { continue; }\n            let bucket_meta = b.spill(tx_freelist)?;\n            bucket_metas.insert(key.clone(), bucket_meta);'),
+    # rewriting a bucket nobody touched costs pages but breaks nothing
+    ('eq-spill-clean-bucket-rewritten', 'C05', 'src/bucket.rs', '        if !self.is_dirty() {\n            return Ok(self.meta);\n        }\n', '        let _ = self.is_dirty();\n'),
     ('eq-split-threshold-int', 'C16', 'src/node.rs', 'let threshold = ((self.pagesize as f32) * FILL_PERCENT) as u64;', 'let threshold = self.pagesize / 2;'),
     ('eq-split-count-from-zero', 'C05', 'src/node.rs', '        let mut count = 0;\n        match &self.data {', '        let mut count: usize = 0;\n        match &self.data {'),
     # defensive code for states a sound tree never shows (found by auditing what the mutation sweep reported, DESIGN 11.12)
